@@ -477,9 +477,55 @@ PROPERTIES["C07"] = {
             "traces, snapshot contents at every read, storer call logs. Non-trivial: depth >= 1 and >= 4 Next calls.",
     "assumptions": ["scripts of this family draw no random numbers (neither RNG nor host state is part of a snapshot)"],
 }
+# ------------------------------------------------------------------ waits (C10, real timers)
+def _f64_exact(bits):
+    """the exact rational value of a non-negative finite binary64 bit pattern"""
+    from fractions import Fraction
+    e, m = (bits >> 52) & 0x7FF, bits & ((1 << 52) - 1)
+    if e == 0:
+        return Fraction(m, 1 << 1074)
+    return Fraction((1 << 52) | m) * (Fraction(2) ** (e - 1075))
+
+
+def waits_projection(line):
+    r = sexp.parse(line)
+    return sexp.dump(r[:3]) if tag(r) == "waited" else line
+
+
+def waits_oracle(case, obs, exp):
+    if tag(obs) != "waited":
+        return "violation", "a script consisting of <<wait n>> and a line was refused or the harness died"
+    if str(obs[1]) != "line" or obs[2] != 1:
+        return "violation", "<<wait n>> followed by a line: expected 'waiting' and then the line, got %s" % sexp.dump(obs[:3])
+    n = _f64_exact(case[1])
+    # time.Duration(n * 1e9): the product is rounded to binary64 (relative error <= 2^-53) and truncated
+    from fractions import Fraction
+    floor_ns = n * 1000000000 * (1 - Fraction(1, 1 << 52)) - 1
+    if obs[3] < floor_ns:
+        return "violation", ("<<wait %s>> reported completion %d ns after the Next call that started it, earlier than %s s"
+                             % (float(n), obs[3], float(n)))
+    if tag(exp) == "waited" and obs[3] < exp[3]:
+        return "violation", "<<wait %s>> completed after %d ns, the model sleeps %d ns" % (float(n), obs[3], exp[3])
+    return "ok", "completion not earlier than n seconds"
+
+
+def waits_features(case):
+    n = float(_f64_exact(case[1]))
+    labels = ["sub-millisecond" if 0 < n < 0.001 else "zero" if n == 0 else "fractional-ms" if (n * 1000) % 1 else "whole-ms",
+              ["literal", "inline-expression", "variable"][case[2]]]
+    return (case[1], case[2]), n > 0, labels
+
+
+FAMILIES["waits"] = {"oracle": waits_oracle, "features": waits_features, "project": waits_projection,
+                     "shrink": lambda c: [], "always_oracle": True}
+
 PROPERTIES["C10"] = {
-    "families": [("cmds", 200, 4000), ("convcmds", 200, 4000)],
-    "rule": "cmds: scripts dense in host commands (raw handlers whose channel the harness owns) with a completion schedule per "
+    "families": [("cmds", 200, 4000), ("convcmds", 200, 4000), ("waits", 160, 3000)],
+    "rule": "waits: <<wait n>> for n below a millisecond, not a whole number of milliseconds, whole milliseconds, zero "
+            "(literal, inline expression, variable), on real timers: the clock is read before the Next call that starts the "
+            "command and after the first Next call that no longer answers 'waiting' (polled without pause), so a measured "
+            "time below n seconds is a completion reported too early whatever the load; also compared with the model's "
+            "time.Duration(n * 1e9). cmds: scripts dense in host commands (raw handlers whose channel the harness owns) with a completion schedule per "
             "invocation: ready on return, or after 1-3 further polls, with nil or an error; <<wait 0.03/0.05>>; "
             "unregistered commands; stop. convcmds: the same with the three shapes ConvertAndAddCommand accepts - "
             "func(float64), func(float64) error (both run on a goroutine of the bridge and stay blocked until the schedule "
@@ -607,13 +653,15 @@ PROPERTIES["C13"] = {
 PROPERTIES["C14"] = {
     "families": [("markuphist", 1200, 40000)],
     "rule": "a history of 0-8 previously parsed lines (a third of them malformed or arbitrary bytes) on one LineParser "
-            "value, then a line (sometimes one of the history again); the result on the reused parser is compared with "
+            "value, then a line (sometimes one of the history again), then further lines (four fixed long lines with 1-5 far "
+            "attributes and the history again) BEFORE the probe's result is read; the result on the reused parser is compared with "
             "the result on a fresh parser and with the model (a function of the line alone). Non-trivial: >= 2 markers.",
     "assumptions": [],
 }
 PROPERTIES["C15"] = {
-    "families": [("markupfuzz", 3000, 200000)],
-    "rule": "three streams: arbitrary bytes (invalid UTF-8, NULs, marker punctuation), valid documents with 1-3 "
+    "families": [("markupfuzz", 3000, 200000), ("markuphist", 500, 20000)],
+    "rule": "markuphist: results handed out earlier are range-checked and read (TextForAttribute) only after the same "
+            "parser has parsed further lines. markupfuzz, three streams: arbitrary bytes (invalid UTF-8, NULs, marker punctuation), valid documents with 1-3 "
             "byte-level mutations, soups of marker fragments; every returned attribute is range-checked against the text "
             "in characters and TextForAttribute is called on it. Non-trivial: >= 2 '[' in the input.",
     "assumptions": [],
